@@ -574,7 +574,7 @@ func (w *vfWorld) prepareStep(st vfStep) *vfPrepared {
 			in.Why = map[int]string{0: "bad-type"}
 		}
 		if st.D != "" {
-			if d, err := time.ParseDuration(st.D); err != nil || d > 24*time.Hour {
+			if d, err := time.ParseDuration(st.D); err != nil || d > 24*time.Hour || d <= 0 {
 				in.Why = map[int]string{0: "bad-duration"}
 			}
 		}
